@@ -58,6 +58,9 @@ def word(rng, atoms, lo, hi):
 
 
 def gen_user(rng, allow_lf=True):
+    if rng.random() < 0.08:
+        # long addresses (the theorems quantify over all strings: sample beyond 30 octets)
+        return long_address(rng, rng.randint(31, 90), list("abcdefghkmnpqrstuvwxyzABZ0123456789_-"))
     r = rng.random()
     if r < 0.30:
         u = word(rng, PLAIN_ATOMS, 1, 8)
@@ -298,7 +301,80 @@ def gen_conc(rng, quick):
                 se["line"] = "AUTH\t%d\tPLAIN\tservice=smtp\tresp=%s" % (k + 1, b64("\x00" + uu + "\x00" + p))
             sessions.append(se)
         rounds.append({"accept": [[good_u + "@" + dom, good_p]], "sessions": sessions})
+    rounds += gen_conc_long(rng, quick, dom)
     return [{"suite": "conc", "domain": dom, "procs": 1, "rounds": rounds, "beh": "200"}]
+
+
+def conc_session(kind, k, u, p, same_conn=False):
+    se = {"kind": "sasl" if kind.startswith("sasl") else kind, "u": u, "p": p, "tag": "c%d" % k}
+    if kind == "login":
+        se["line"] = "%s LOGIN %s %s\r\n" % (se["tag"], u, p)
+    elif kind == "authplain":
+        se["blob"] = b64("\x00" + u + "\x00" + p) + "\r\n"
+    elif kind == "sasl":
+        se["id"] = str(k + 1)
+        se["line"] = "AUTH\t%d\tPLAIN\tservice=smtp\tresp=%s" % (k + 1, b64("\x00" + u + "\x00" + p))
+    elif kind == "sasl_login":       # SASL LOGIN mechanism: never verified, never OK
+        se["id"] = str(k + 1)
+        se["mech"] = "LOGIN"
+        se["line"] = "AUTH\t%d\tLOGIN\tservice=smtp\tresp=%s" % (k + 1, b64(u))
+    if same_conn:
+        se["same_conn"] = True
+    return se
+
+
+def long_address(rng, total, alnum):
+    """an address of about `total` octets: local part up to 64 octets, long domain"""
+    total = max(20, total)
+    ll = min(64, max(6, total * rng.randint(40, 70) // 100))
+    local = ".".join(word(rng, alnum, 3, 9) for _ in range(12))[:ll].strip(".") or "x"
+    rest = max(8, total - len(local) - 1)
+    dom = ".".join(word(rng, alnum, 3, 10) for _ in range(12))[:rest - 4].strip(".") + rng.choice([".org", ".net", ".com"])
+    return local + "@" + dom
+
+
+def gen_conc_long(rng, quick, dom):
+    """rounds with addresses of 20..80 octets: the same long address with the right and a wrong
+    password, and two addresses sharing their first 31 / 32 / 33 / 40 octets, over all mechanisms,
+    on two connections and back-to-back on one SASL connection; the valid one first or last"""
+    alnum = list("abcdefghkmnpqrstuvwxyz23456789")
+    plans = []
+    share = [None, 32, 31, 33, 40, None, 32, 40]
+    kinds = [("sasl", "sasl"), ("sasl", "sasl"), ("sasl", "sasl"), ("login", "sasl"), ("authplain", "login"),
+             ("sasl", "sasl_login", "sasl"), ("direct", "direct"), ("sasl", "authplain", "login")]
+    reps = 1 if quick else 4
+    for rep in range(reps):
+        for n, (sh, ks) in enumerate(zip(share, kinds)):
+            plans.append((sh, ks, (n + rep) % 2 == 0, False))
+        # back-to-back on ONE SASL connection (sequential for the service) vs two connections
+        plans.append((None, ("sasl", "sasl"), True, True))
+        plans.append((32, ("sasl", "sasl"), True, True))
+    rounds = []
+    for (sh, ks, valid_first, same_conn) in plans:
+        total = rng.randint(34, 80) if sh else rng.randint(20, 80)
+        good_u = long_address(rng, max(total, (sh or 0) + 6), alnum)
+        good_p = word(rng, alnum, 6, 12)
+        others = []
+        for j in range(len(ks) - 1):
+            if sh is None:
+                # the SAME address with a wrong password
+                wrong = word(rng, alnum, 6, 12)
+                others.append((good_u, wrong if wrong != good_p else wrong + "x"))
+            else:
+                # another person's address sharing exactly the first `sh` octets
+                tail = good_u[sh:]
+                c = rng.choice([ch for ch in alnum if ch != (tail[:1] or "")])
+                other = good_u[:sh] + c + word(rng, alnum, 2, 6) + rng.choice(["", "@" + word(rng, alnum, 4, 8) + ".org"])
+                if other.count("@") > 1:
+                    i = other.index("@")
+                    other = other[:i + 1] + other[i + 1:].replace("@", ".")
+                others.append((other, rng.choice([good_p, word(rng, alnum, 6, 12)])))
+        creds = [(good_u, good_p)] + others if valid_first else others + [(good_u, good_p)]
+        sessions = []
+        for k, (kind, (u, p)) in enumerate(zip(ks, creds)):
+            sessions.append(conc_session(kind, k, u, p, same_conn=(same_conn and k > 0)))
+        rounds.append({"accept": [[good_u, good_p]], "sessions": sessions})
+    return rounds
 
 
 # ---------------------------------------------------------------------------
@@ -485,7 +561,8 @@ def emit(cases):
                     else:
                         reply = "R_OK" if ob.get("wrote", "").startswith("OK\t") else "R_NO"
                     b = "None" if bound is None else "(Some (%s, %s))" % (cs(bound[0]), cs(bound[1]))
-                    xs.append("(mk_csess %s %s %s %s %s %s)" % (C.coq_bool(imap), cs(c["domain"]), cs(se["u"]), cs(se["p"]), reply, b))
+                    req = se.get("mech") != "LOGIN"
+                    xs.append("(mk_csess %s %s %s %s %s %s %s)" % (C.coq_bool(imap), C.coq_bool(req), cs(c["domain"]), cs(se["u"]), cs(se["p"]), reply, b))
                 bodies = ["(%s, %s)" % (cs(x["body"]), C.coq_bool(x["accepted"])) for x in rd["backend"]]
                 groups[s].append(((i, (r, 0)), "(mk_ccase %s %s)" % (C.coq_list(xs), C.coq_list(bodies))))
             continue
